@@ -180,7 +180,7 @@ def multiplicity(position, sgname=None, sgno=None, cell_choice='standard'):
     lp = n.zeros((mysg.nsymop, 3))
 
     for i in range(mysg.nsymop):
-        lp[i, :] = n.dot(position, mysg.rot[i]) + mysg.trans[i]
+        lp[i, :] = n.dot(mysg.rot[i], position) + mysg.trans[i]
 
     lpu = n.array([lp[0, :]])
     multi = 1
